@@ -720,6 +720,7 @@ class Sweep(TEBDContract):
         q = {"absent": ABSENT, "none": None, "right": ["right", qf], "left": ["left", qf]}[case.qs]
         ref = new_tebd(cx, cyclic=case.cyclic, imag=case.imag, queue=q)
         cx.ghost["q0"] = (case.qs in ("right", "left"), DIRS.get(case.qs, 0), qf)
+        mark_case(cx, case)
         a = NS(dict(self=ref, direction=case.direction, dt_frac=cx.Real("dt_frac"),
                     dt=None if case.dt == "none" else cx.Real("dt"), queue=case.queue))
         for c in self.reqs(cx, a).values():
@@ -1406,6 +1407,7 @@ class AtTimes(TEBDContract):
         a = NS(dict(self=ref, ts=ts, dt=cx.Real("dt") if r == "dt" else None, tol=cx.Real("tol") if r == "tol" else None,
                     order=case.order, progbar=None))
         cx.assume(And(n >= 1))
+        mark_case(cx, case)
         de = f["dt"] if a.dt is None else a.dt
         if de is not None:
             cx.assume(R(de) > 0)
@@ -1859,3 +1861,110 @@ class LocalHamGenInit(Contract):
         if g["qarray"]:
             d["qarray-terms-converted"] = len([e for e in cx.events if e[0] == "convert"]) == len(g["H2"]) + 1
         return d
+
+
+# ======================================================================================================
+# native replays of the gauge obligations (run the real TEBD, watch where the orthogonality centre really is)
+# ======================================================================================================
+
+
+def _native_tebd(L=6, cyclic=False, imag=False, centre=0, seed=11):
+    import quimb.tensor as qtn
+
+    psi = qtn.MPS_rand_state(L, 4, dtype=complex, seed=seed, cyclic=cyclic)
+    H = qtn.ham_1d_heis(L, cyclic=cyclic)
+    tebd = qtn.TEBD(psi, H, dt=0.05, progbar=False, imag=imag)
+    tebd.split_opts["cutoff"] = 0.0
+    tebd._pt.canonicalize_(centre)
+    return tebd
+
+
+class _watch_gates:
+    """records, for every gate_split_ of the run, whether the numerically determined orthogonality centre lies on the
+    sites the gate acts on"""
+
+    def __enter__(self):
+        import quimb.tensor as qtn
+
+        self.cls, self.orig, self.log = qtn.MatrixProductState, qtn.MatrixProductState.gate_split_, []
+        log, orig = self.log, self.orig
+
+        def wrapped(mps, U, where, **kw):
+            lo, ro = mps.count_canonized()
+            cmin, cmax = lo, mps.L - ro - 1
+            log.append(dict(where=tuple(int(x) for x in where), centre=(int(cmin), int(cmax)),
+                            on_sites=bool(cmin >= min(where) and cmax <= max(where))))
+            return orig(mps, U, where, **kw)
+
+        self.cls.gate_split_ = wrapped
+        return self
+
+    def __exit__(self, *exc):
+        self.cls.gate_split_ = self.orig
+
+
+def _replay_sweep(model):
+    c = case_of_model(model)
+    if not c:
+        return dict(reproduced=False, note="no case marker in the model")
+    imag, cyclic = c["imag"] == "True", c["cyclic"] == "True"
+    queue, qs, direction = c["queue"] == "True", c["queued"], c["direction"]
+    first = qs if (qs in ("right", "left") and (not queue or qs != direction)) else direction
+    L = 6
+    tebd = _native_tebd(L, cyclic, imag, centre=0 if first == "right" else L - 1)
+    if qs == "none":
+        tebd._queued_sweep = None
+    elif qs in ("right", "left"):
+        tebd._queued_sweep = [qs, 0.5]
+    call = (f"TEBD(MPS_rand_state({L}, 4) canonicalized at {0 if first == 'right' else L - 1}, ham_1d_heis, dt=0.05, imag={imag}); "
+            f"_queued_sweep={getattr(tebd, '_queued_sweep', '<absent>')}; sweep({direction!r}, 0.3, queue={queue})")
+    with _watch_gates() as w:
+        tebd.sweep(direction, 0.3, queue=queue)
+    bad = [g for g in w.log if not g["on_sites"]]
+    p = tebd.pt
+    nrm = float(abs(p.H @ p) ** 0.5)
+    obs = dict(gates=len(w.log), gates_with_centre_off_their_sites=bad[:4], norm_after=nrm,
+               centre_after=[int(x) for x in tebd._pt.calc_current_orthog_center()])
+    rep = bool(bad) or (imag and bool(w.log) and abs(nrm - 1) > 1e-8)
+    return dict(call=call, observed=obs, reproduced=bool(rep and not cyclic))
+
+
+def _replay_step(model):
+    c = case_of_model(model)
+    if not c:
+        return dict(reproduced=False, note="no case marker in the model")
+    order, pend = int(c["order"]), c["pending"]
+    kw = {} if c["queue"] == "default" else {"queue": c["queue"] == "True"}
+    queue = kw.get("queue", False)
+    sched = [("right", "left")[k] for k, _ in spec_schedule(2, order)]
+    first = pend if (pend != "none" and (not queue or pend != sched[0])) else sched[0]
+    L = 6
+    tebd = _native_tebd(L, False, False, centre=0 if first == "right" else L - 1)
+    tebd._queued_sweep = None if pend == "none" else [pend, 0.5]
+    dt = None if c["dt"] == "none" else 0.03
+    call = (f"TEBD(MPS_rand_state({L}, 4) canonicalized at {0 if first == 'right' else L - 1}, ham_1d_heis, dt=0.05); "
+            f"_queued_sweep={tebd._queued_sweep}; step(order={order}, dt={dt}, **{kw})")
+    with _watch_gates() as w:
+        tebd.step(order=order, dt=dt, **kw)
+    bad = [g for g in w.log if not g["on_sites"]]
+    return dict(call=call, observed=dict(gates=len(w.log), gates_with_centre_off_their_sites=len(bad), first=bad[:3]),
+                reproduced=bool(bad))
+
+
+def _replay_at_times(model):
+    c = case_of_model(model)
+    order = int(c.get("order", 4))
+    L = 6
+    tebd = _native_tebd(L, False, False, centre=0)
+    call = f"TEBD(MPS_rand_state({L}, 4), ham_1d_heis, dt=0.05).at_times([0.1, 0.2, 0.3], order={order})"
+    with _watch_gates() as w:
+        for _ in tebd.at_times([0.1, 0.2, 0.3], order=order, progbar=False):
+            pass
+    bad = [g for g in w.log if not g["on_sites"]]
+    return dict(call=call, observed=dict(gates=len(w.log), gates_with_centre_off_their_sites=len(bad), first=bad[:3]),
+                reproduced=bool(bad))
+
+
+Sweep.replay = lambda self, model: _replay_sweep(model)
+Step.replay = lambda self, model: _replay_step(model)
+AtTimes.replay = lambda self, model: _replay_at_times(model)
